@@ -37,7 +37,7 @@ func features() int {
 		n, _ := strconv.Atoi(s)
 		return n
 	}
-	return pgen.FRefTypes | pgen.FListComp | pgen.FConflict | pgen.FStructDisj | pgen.FSelectors
+	return pgen.FRefTypes | pgen.FListComp | pgen.FConflict | pgen.FStructDisj | pgen.FSelectors | pgen.FDerived
 }
 
 func evalFiles(files []string) (cue.Value, error) {
